@@ -203,6 +203,7 @@ def run(ctx: RuleContext, p: Program) -> None:
     ctx.try_rule(c12.rule_str_boundary, p, c12.grammar(p), 'STR-BOUNDARY', 7 if ctx.tier == 'quick' else 9)
     ctx.try_rule(c12.rule_fmt_lang, p, c12.grammar(p), 'FMT-LANG')
     ctx.try_rule(rule_fv_arg, p, 'FV-ARG')
+    ctx.try_rule(grammar_rules.rule_inline_eol, p, 'INLINE-EOL')
     ctx.try_rule(grammar_rules.rule_lex_prio, p, 'LEX-PRIO')
     ctx.try_rule(grammar_rules.rule_term_domain, p, 'TERM-DOMAIN')
     ctx.not_decided += ['that the printed text of a constructed model parses (runtime / lexer)',
